@@ -54,7 +54,7 @@ def c01():
 @reg("C02")
 def c02():
     # fee-bearing keysets incl. the boundary values named by the property
-    return minthist.check("C02", fees=(0, 1, 100, 999, 1000, 2500), policy="min1")
+    return minthist.check("C02", fees=(0, 1, 100, 999, 1000, 2500), policy="min1", mpp_set=(True, False))
 
 
 @reg("C03")
@@ -123,7 +123,10 @@ def c15():
 
 @reg("C16")
 def c16():
-    return minthist.check("C16")
+    # each limit unset / small / exactly at the boundary of what the funded history reaches (13 minted at start)
+    lims = [(0, 0, 0), (13, 0, 0), (14, 0, 0), (16, 5, 0), (21, 0, 3), (0, 3, 5), (30, 13, 8), (12, 8, 2)]
+    return minthist.check("C16", limits=lims, profile=["mintquote", "settle", "pollmint", "mint", "swap", "meltquote", "melt", "pollmelt", "restart"],
+                          gen_overrides={"MaxMq": 7, "MaxLq": 4})
 
 
 @reg("C17")
